@@ -3368,6 +3368,12 @@ func (a *Association) createForwardTSN() *chunkForwardTSN {
 			break
 		}
 
+		// Unordered chunks carry no meaningful SSN (the field holds the
+		// stream's next ordered SSN); FORWARD-TSN reports ordered skips only.
+		if c.unordered {
+			continue
+		}
+
 		ssn, ok := streamMap[c.streamIdentifier]
 		if !ok {
 			streamMap[c.streamIdentifier] = c.streamSequenceNumber
